@@ -38,6 +38,10 @@ pub struct Sched {
     /// operation index that fails exactly once (transient fault; the operations after it work again)
     #[serde(default)]
     pub fail_once_at: Option<u64>,
+    /// from this operation index on, write calls accept nothing and return Ok(0) (a sink that is full);
+    /// reads, seeks and flushes keep working
+    #[serde(default)]
+    pub zero_write_from: Option<u64>,
 }
 
 impl Sched {
@@ -154,8 +158,13 @@ impl Core {
         Ok(n)
     }
     fn do_write(&mut self, buf: &[u8]) -> io::Result<usize> {
+        let k = self.ops;
         if let Some(e) = self.fault() {
             return Err(e);
+        }
+        if self.sched.zero_write_from.map_or(false, |z| k >= z) && !buf.is_empty() {
+            self.faults_returned += 1;
+            return Ok(0);
         }
         let cap = self.cap();
         let n = buf.len().min(cap);
